@@ -39,6 +39,9 @@ pub use self::{
     node::{NodeBuilder, PERIODIC_REPLICATION_INTERVAL_MAX_S},
 };
 
+#[cfg(feature = "verif-hooks")]
+pub use self::node::verif_hooks;
+
 use crate::error::{Error, Result};
 
 use ant_networking::{Network, SwarmLocalState};
